@@ -1256,8 +1256,33 @@ package yang
 // pair is an error -- reported at the backslash -- unless the string is the
 // argument of a pattern statement; a string that is not closed is reported at
 // its opening quote, at the end of the input only.
-//@ func lexQString props C02 C16
-//@   only before:
+// C01: the cursor stays inside the input in every state of the lexer, also
+// after an error has been reported: the ninth error empties the input and puts
+// the cursor at its start (adderror, proved); reporting (Errorf / ErrorfAt, which
+// also hand a token to the parser through the channel -- outside the subset --
+// and are therefore assumed) does nothing else to the cursor. So the next
+// character is always asked for from inside the input (the precondition of
+// next, claimed at every call in the string state).
+//@ func (*lexer).adderror props C01
+//@   requires l != nil && l.errout != nil
+//@   ensures  old(lexOK(l)) ==> lexOK(l)
+//@   ensures  (l.input == old(l.input) && l.pos == old(l.pos) && l.start == old(l.start)) || (l.input == "" && l.pos == 0 && l.start == 0)
+//@   modifies l.pos, l.start, l.input, l.errcnt, iw.partial
+//@   safe
+//@ func (*lexer).ErrorfAt trusted
+//@   requires l != nil
+//@   ensures  old(lexOK(l)) ==> lexOK(l)
+//@   ensures  (l.input == old(l.input) && l.pos == old(l.pos)) || (l.input == "" && l.pos == 0)
+//@   ensures  l.width == old(l.width) && l.inPattern == old(l.inPattern)
+//@   modifies l.pos, l.start, l.input, l.errcnt
+//@ func (*lexer).emitText trusted
+//@   requires l != nil
+//@   modifies l.start
+//@ func lexQString props C02 C16 C01
+//@   only before: pre:(*lexer).next loop1/
+//@   requires lexOK(l)
+//@   loop 1
+//@     invariant lexOK(l)
 //@   before[a-string-that-is-not-closed-is-reported-where-it-opens] (*lexer).ErrorfAt#1 c == eof && arg1 == line && arg2 == col
 //@   before[an-unknown-escape-is-an-error-except-in-a-pattern] (*lexer).ErrorfAt#2 !l.inPattern && c != 'n' && c != 't' && c != '"' && c != '\\' && arg1 == bline && arg2 == bcol
 // Between tokens: ";", "{" and "}" are tokens of their own; so is a "+" that
